@@ -850,6 +850,152 @@ func flushProtocolFacts() {
 
 func init() { sections = append(sections, flushProtocolFacts) }
 
+// iterateFacts: the order of locking, capturing, registering and reading in rowStore.iterate (C03, C18: Model/Pin.v).
+func iterateFacts() {
+	out.WriteString("\n(* ---- rowStore.iterate: critical sections around capturing the file store and registering on it: row_store.go ---- *)\n")
+	steps := []string{}
+	if fd := funcDecl(parse("row_store.go"), "rowStore", "iterate"); fd != nil {
+		calls := map[string]string{"rs.mx.RLock": "rlock", "rs.mx.RUnlock": "runlock", "rs.mx.Lock": "lock", "rs.mx.Unlock": "unlock",
+			"rs.memStore.copy": "copy_mem", "fs.iterate": "read"}
+		ast.Inspect(fd.Body, func(n ast.Node) bool {
+			switch x := n.(type) {
+			case *ast.DeferStmt, *ast.FuncLit:
+				return false
+			case *ast.AssignStmt:
+				for _, r := range x.Rhs {
+					if selectorPath(r) == "rs.fileStore" {
+						steps = append(steps, "capture")
+					}
+				}
+			case *ast.IncDecStmt:
+				if ix, ok := x.X.(*ast.IndexExpr); ok && selectorPath(ix.X) == "rs.iterationsInProgress" && x.Tok == token.INC {
+					steps = append(steps, "pin")
+				}
+			case *ast.CallExpr:
+				if name, ok := calls[selectorPath(x.Fun)]; ok {
+					steps = append(steps, name)
+				}
+			}
+			return true
+		})
+	} else {
+		unsupported = append(unsupported, "gen_iterate_steps")
+	}
+	fmt.Fprintf(&out, "Definition gen_iterate_steps : list string := %s.\n", quoteStrs(steps))
+}
+
+func init() { sections = append(sections, iterateFacts) }
+
+// classifyPath says how a file-name expression is built: joined to the table directory, or a bare directory entry name.
+func classifyPath(e ast.Expr) string {
+	if c, ok := e.(*ast.CallExpr); ok {
+		switch selectorPath(c.Fun) {
+		case "filepath.Join":
+			if len(c.Args) > 0 && (selectorPath(c.Args[0]) == "rs.opts.dir" || selectorPath(c.Args[0]) == "opts.dir") {
+				return "dir_joined"
+			}
+			return "joined_other"
+		}
+		if sel, ok := c.Fun.(*ast.SelectorExpr); ok && sel.Sel.Name == "Name" {
+			return "base_name"
+		}
+	}
+	if b, ok := e.(*ast.BasicLit); ok && b.Value == `""` {
+		return "empty"
+	}
+	return "other"
+}
+
+// definitionsOf collects how the identifier `name` is assigned anywhere in body.
+func definitionsOf(body *ast.BlockStmt, name string) []string {
+	var res []string
+	ast.Inspect(body, func(n ast.Node) bool {
+		if a, ok := n.(*ast.AssignStmt); ok && len(a.Lhs) == len(a.Rhs) {
+			for i, l := range a.Lhs {
+				if id, ok := l.(*ast.Ident); ok && id.Name == name {
+					res = append(res, classifyPath(a.Rhs[i]))
+				}
+			}
+		}
+		return true
+	})
+	return res
+}
+
+// readerKeyFacts: under which key scans register on a file store and under which key the remover looks readers up (Model/Pin.v: removable).
+func readerKeyFacts() {
+	out.WriteString("\n(* ---- iterationsInProgress: key used by rowStore.iterate, key used by removeOldFiles, how file store names are built ---- *)\n")
+	rsf := parse("row_store.go")
+	keyOf := func(fn string) (ast.Expr, *ast.FuncDecl) {
+		fd := funcDecl(rsf, "rowStore", fn)
+		if fd == nil {
+			return nil, nil
+		}
+		var key ast.Expr
+		ast.Inspect(fd.Body, func(n ast.Node) bool {
+			if ix, ok := n.(*ast.IndexExpr); ok && selectorPath(ix.X) == "rs.iterationsInProgress" && key == nil {
+				key = ix.Index
+			}
+			return true
+		})
+		return key, fd
+	}
+	pinKey, removerKey := "missing", []string{"missing"}
+	if k, _ := keyOf("iterate"); k != nil {
+		pinKey = selectorPath(k)
+	}
+	if k, fd := keyOf("removeOldFiles"); k != nil {
+		if id, ok := k.(*ast.Ident); ok {
+			removerKey = definitionsOf(fd.Body, id.Name)
+		} else {
+			removerKey = []string{classifyPath(k)}
+		}
+	}
+	// every place a fileStore gets its filename
+	var names []string
+	ast.Inspect(rsf, func(n ast.Node) bool {
+		fd, ok := n.(*ast.FuncDecl)
+		if !ok || fd.Body == nil {
+			return true
+		}
+		ast.Inspect(fd.Body, func(m ast.Node) bool {
+			cl, ok := m.(*ast.CompositeLit)
+			if !ok {
+				return true
+			}
+			if id, ok := cl.Type.(*ast.Ident); !ok || id.Name != "fileStore" {
+				return true
+			}
+			var fe ast.Expr
+			for i, el := range cl.Elts {
+				if kv, ok := el.(*ast.KeyValueExpr); ok {
+					if id, ok := kv.Key.(*ast.Ident); ok && id.Name == "filename" {
+						fe = kv.Value
+					}
+				} else if i == 3 { // positional: t, rs, fields, filename
+					fe = el
+				}
+			}
+			if id, ok := fe.(*ast.Ident); ok {
+				for _, d := range definitionsOf(fd.Body, id.Name) {
+					if d != "empty" {
+						names = append(names, d)
+					}
+				}
+			} else if fe != nil {
+				names = append(names, classifyPath(fe))
+			}
+			return true
+		})
+		return false
+	})
+	fmt.Fprintf(&out, "Definition gen_pin_key : string := %q.\n", pinKey)
+	fmt.Fprintf(&out, "Definition gen_remover_key : list string := %s.\n", quoteStrs(removerKey))
+	fmt.Fprintf(&out, "Definition gen_filestore_names : list string := %s.\n", quoteStrs(names))
+}
+
+func init() { sections = append(sections, readerKeyFacts) }
+
 func main() {
 	flag.Parse()
 	out.WriteString("(* GENERATED by /verif/harness/cmd/srcfacts from /repo on every run. Do not edit. *)\n")
